@@ -206,3 +206,22 @@ Theorem C08_code_protected_iter_is_rfc_rule : forall ks,
   = map kind_code (keep_admitted (allow {| s_mi := false; s_sha := false; s_fp := false |} ks) ks).
 Proof. exact CodeAgreeIter.code_protected_iter_is_rfc_rule. Qed.
 Print Assumptions C08_code_protected_iter_is_rfc_rule.
+
+(* ---- the IF direction of "after the server's 401 challenge the application is told to retry ... a 438 reply switches to the
+   new nonce", model side: the long-term client model answers every PLAIN challenge (Monitors.plain_challenge, the clause
+   mon_C08_retry judges the implementation by) with exactly the retry notification for that request, finishes the
+   transaction and stores the challenge's nonce *)
+From Rustun Require Import Proofs.AgentRetry.
+Theorem C08_plain_challenge_is_retried : forall (c:client) (s:lt_mech) (now:N) (w:msg),
+  mech_ c = MLT s ->
+  plain_challenge (use_fp (cfg c)) (match lt_pr s with Some _ => true | None => false end)
+                  (match Model.lookup (m_id w) (T c) with Some _ => true | None => false end) true w = true ->
+  let '(c', rep, evs) := Model.step c (Model.Recv now true w) in
+  rep = Model.ROk None /\ evs = [Model.Retry (m_id w)] /\
+  Model.lookup (m_id w) (T c') = None /\
+  exists s', mech_ c' = MLT s' /\
+     match lt_pr s' with
+     | Some p => Some (p_nonce p) = get_nonce (Model.rfc_filter (m_attrs w))
+     | None => False end.
+Proof. exact AgentRetry.plain_challenge_is_retried. Qed.
+Print Assumptions C08_plain_challenge_is_retried.
